@@ -67,8 +67,13 @@ pub fn from_bytes_i<const L: usize, const M: usize>(be: bool) {
 // ------------------------------------------------------------------ encoding and round trip
 
 /// UBig::to_le_bytes / to_be_bytes: exact bytes of the value, minimal length, and from(to(x)) == x
-pub fn to_bytes_u<const N: usize>(be: bool) {
-    let a = any_mag::<N>();
+pub fn to_bytes_u<const N: usize>(be: bool, top: Word) {
+    // the most significant word is a literal: the number of bytes (a Vec capacity) is then a constant
+    // (with a symbolic top word CBMC runs out of memory on the symbolic-size Vec)
+    let mut a = any_mag::<N>();
+    if N > 0 {
+        a[N - 1] = top;
+    }
     let x = ubig(&a);
     let bytes = if be { x.to_be_bytes() } else { x.to_le_bytes() };
     let bl = if N == 0 { 0 } else { N * WB - a[N - 1].leading_zeros() as usize };
@@ -92,8 +97,11 @@ pub fn to_bytes_u<const N: usize>(be: bool) {
 
 /// IBig::to_le_bytes / to_be_bytes: the bytes are a two's complement encoding of the value
 /// (sign-extending them reproduces every byte of the value) and decode back to the same integer
-pub fn to_bytes_i<const N: usize>(s: Sign, be: bool) {
-    let a = any_mag::<N>();
+pub fn to_bytes_i<const N: usize>(s: Sign, be: bool, top: Word) {
+    let mut a = any_mag::<N>();
+    if N > 0 {
+        a[N - 1] = top;
+    }
     let s = if N == 0 { POS } else { s };
     let x = ibig(s, &a);
     let bytes = if be { x.to_be_bytes() } else { x.to_le_bytes() };
